@@ -69,6 +69,15 @@ class Injected(Exception):
 # ----------------------------------------------------------------------------
 # layout <-> model paths
 # ----------------------------------------------------------------------------
+# init_params(extra=...): suffix of the shank folder names; fixed per task (set by the worker)
+LAYOUT = {"extra": ""}
+
+
+def sub_list(mask):
+    """init_params(nshank=...) from the bit mask of a run (0 = parameter not given)"""
+    return [k for k in range(8) if mask >> k & 1] if mask else None
+
+
 def owner_path(root, oc, f):
     """model owner code, fkind code -> real path"""
     ext = "." + FKN[f]
@@ -77,7 +86,7 @@ def owner_path(root, oc, f):
     if oc == 2:
         return root / "probe00" / (NAME + ".lf" + ext)
     k, e = divmod(oc - 10, 2)
-    return root / ("probe00" + chr(97 + k)) / (NAME + (".ap" if e == 0 else ".lf") + ext)
+    return root / ("probe00" + chr(97 + k) + LAYOUT["extra"]) / (NAME + (".ap" if e == 0 else ".lf") + ext)
 
 
 def universe(root, n):
@@ -86,7 +95,7 @@ def universe(root, n):
     for oc in (1, 2):
         out += [(oc * 10 + f, owner_path(root, oc, f)) for f in range(NFK)]
     for k in range(n):
-        out.append((1000 + k, root / ("probe00" + chr(97 + k))))
+        out.append((1000 + k, root / ("probe00" + chr(97 + k) + LAYOUT["extra"])))
         for e in (0, 1):
             oc = 10 + 2 * k + e
             out += [(oc * 10 + f, owner_path(root, oc, f)) for f in range(NFK)]
@@ -103,6 +112,10 @@ def pcode(root, p):
     if not parts or not parts[0].startswith("probe00"):
         return -1
     suf = parts[0][len("probe00"):]
+    if suf and LAYOUT["extra"]:
+        if not suf.endswith(LAYOUT["extra"]):
+            return -1
+        suf = suf[:-len(LAYOUT["extra"])]
     if len(parts) == 1:
         return 1000 + ord(suf) - 97 if len(suf) == 1 and suf.isalpha() else -1
     if len(parts) != 2:
@@ -518,7 +531,7 @@ def run_real(root, cfg, exp, r):
         conv = NP2Converter(str(tgt) if (r["post"] + r["comp"] + r["ow"]) % 2 else tgt,
                             post_check=bool(r["post"]), delete_original=bool(r["del"]),
                             compress=bool(r["comp"]))
-        conv.init_params(nwindow=NWINDOW)
+        conv.init_params(nwindow=NWINDOW, nshank=sub_list(r.get("sub", 0)), extra=LAYOUT["extra"] or None)
     except FileNotFoundError:
         obs["outcome"] = 201
     except Exception as e:
@@ -553,7 +566,8 @@ def run_object(root, cfg, exp, opts, calls):
     root = root.resolve()
     tgt = owner_path(root, 1, 1 if compressed else 0)
     conv = NP2Converter(tgt, post_check=bool(opts[0]), delete_original=bool(opts[1]), compress=bool(opts[2]))
-    conv.init_params(nwindow=NWINDOW)
+    conv.init_params(nwindow=NWINDOW, nshank=sub_list(opts[3] if len(opts) > 3 else 0),
+                     extra=LAYOUT["extra"] or None)
     out = []
     ever_ok = False          # some check_NP24 on this object has succeeded
     fresh_ok = False         # ... and since then no check failed and no shank file was rewritten / damaged
@@ -577,7 +591,7 @@ def run_object(root, cfg, exp, opts, calls):
             def fn():
                 conv.post_check, conv.delete_original, conv.compress = bool(c["post"]), bool(c["del"]), bool(c["comp"])
         died = False
-        if ct == 0 and obs["closed_before"]:      # never read through a closed reader in this process
+        if ct in (0, 1) and obs["closed_before"]:  # never read through a closed reader in this process
             log = root.parent / (root.name + ".sitelog")
             log.write_text("")
             S.logfile = log
@@ -588,7 +602,7 @@ def run_object(root, cfg, exp, opts, calls):
                         invoke(fn, obs)
                     (root.parent / (root.name + ".childobs")).write_text(json.dumps(
                         [obs.get("outcome"), obs.get("exc", ""), int(bool(conv.check_completed)),
-                         getattr(conv, "already_exists", None)]))
+                         getattr(conv, "already_exists", None), int(S.verify_ok), int(S.check_failed)]))
                 finally:
                     os._exit(0)
             _, status = os.waitpid(pid, 0)
@@ -599,14 +613,16 @@ def run_object(root, cfg, exp, opts, calls):
                 obs["exc"] = "interpreter killed by signal %s" % (os.WTERMSIG(status) if os.WIFSIGNALED(status) else "?")
                 died = True
             else:
-                oc, exc, chk, ae = json.loads(co.read_text())
+                oc, exc, chk, ae, vok, cfail = json.loads(co.read_text())
                 obs["outcome"], obs["exc"] = oc, exc
-                if oc < 200:
+                if oc < 200 and ct == 0:
                     obs["already"] = 2 if ae is None else int(bool(ae))
+                S.verify_ok, S.check_failed = bool(vok), bool(cfail)
+                obs["checked_child"] = chk
                 died = True      # the parent's object did not see the call: stop here
                 co.unlink()
             log.unlink()
-            obs["checked"] = int(bool(getattr(conv, "check_completed", False)))
+            obs["checked"] = obs.pop("checked_child", int(bool(getattr(conv, "check_completed", False))))
         else:
             with patched(root, cfg, S, c.get("cpos", 0)):
                 invoke(fn, obs)
@@ -693,7 +709,7 @@ def enc_hist(cfg, runs):
     kind, fixture, n, w, compressed = CONFIGS[cfg]
     out = [kind, n, w, int(compressed)]
     for r in runs:
-        out += [r["t"], r["post"], r["del"], r["comp"], r["ow"], r["crash"], r["corrupt"]]
+        out += [r["t"], r["post"], r["del"], r["comp"], r["ow"], r["crash"], r["corrupt"], r.get("sub", 0)]
     return out
 
 
@@ -719,7 +735,8 @@ def recoverable(cfg, s):
 def outputs_valid(cfg, r, s):
     """state after a completed conversion with these options"""
     kind, fixture, n, w, compressed = CONFIGS[cfg]
-    owners = [2] if kind == 1 else [10 + 2 * k + e for k in range(n) for e in (0, 1)]
+    shanks = sub_list(r.get("sub", 0)) or list(range(n))
+    owners = [2] if kind == 1 else [10 + 2 * k + e for k in shanks for e in (0, 1)]
     bad = []
     for oc in owners:
         a = oc * 10
@@ -730,7 +747,7 @@ def outputs_valid(cfg, r, s):
                 bad.append("compressed output of owner %d" % oc)
         elif s[a] != 2:
             bad.append("binary output of owner %d" % oc)
-    if kind == 0 and any(s[1000 + k] != 2 for k in range(n)):
+    if kind == 0 and any(s[1000 + k] != 2 for k in shanks):
         bad.append("shank folder")
     if kind == 1 and r["comp"] and r["t"] == 0 and not (s[10] == 0 and s[11] == 2 and s[13] == 2):
         bad.append("original not compressed in place")
@@ -742,6 +759,7 @@ def oracle(ctx, cfg, runs, obs, pre0, seen):
     kind, fixture, n, w, compressed = CONFIGS[cfg]
     prev = pre0
     prev_complete = False
+    prev_sub = 0
     for i, (r, o) in enumerate(zip(runs, obs)):
         s = st_of(cfg, o)
         p = dict(zip(s.keys(), prev))
@@ -779,15 +797,27 @@ def oracle(ctx, cfg, runs, obs, pre0, seen):
             fail("already split input: status %d" % oc, dict(tags, clause="split_input"))
         if kind == 2 and r["t"] < 2 and input_present and oc != 99:
             fail("NP1 input: status %d" % oc, dict(tags, clause="np1"))
-        if not fault and oc >= 200 and not (oc == 201 and not input_present):
+        full = (1 << n) - 1
+        partial = kind == 0 and r.get("sub", 0) not in (0, full)
+        # a split of only some shanks can never pass the comparison with the full-width original
+        expect_assert = partial and bool(r["post"]) and r["t"] < 2
+        if expect_assert and oc == 101:
+            fail("verification accepted a split that does not cover every channel of the original",
+                 dict(tags, clause="subset_verify"))
+        if not fault and oc >= 200 and not (oc == 201 and not input_present) and not (oc == 202 and expect_assert):
             fail("fault-free run raised (%d %s)" % (oc, o.get("exc", "")), dict(tags, clause="raised"))
         if r["corrupt"] >= 0 and r["post"] and r["crash"] < 0 and kind == 0 and r["t"] < 2 and input_present \
                 and r["corrupt"] < n and oc not in (100, 202):
             fail("damaged shank file passed verification (outcome %d)" % oc, dict(tags, clause="verify_missed"))
-        if prev_complete and not r["ow"] and not fault and input_present and r["t"] < 2 and oc != 100:
+        if prev_complete and not r["ow"] and not fault and input_present and r["t"] < 2 and oc != 100 \
+                and r.get("sub", 0) == prev_sub:
             fail("repeated run after a complete run did not report 'nothing done' (%d)" % oc,
                  dict(tags, clause="rerun_status"))
-        if r["ow"] and not fault and input_present and r["t"] < 2 and kind != 2:
+        if r["ow"] and not fault and input_present and r["t"] < 2 and kind != 2 and expect_assert:
+            if oc != 202:
+                fail("forced re-run of a partial split did not end in the verification error (%d)" % oc,
+                     dict(tags, clause="subset_verify"))
+        elif r["ow"] and not fault and input_present and r["t"] < 2 and kind != 2:
             if oc != 101:
                 fail("forced re-run did not complete (%d %s)" % (oc, o.get("exc", "")),
                      dict(tags, clause="forced_rerun"))
@@ -799,6 +829,8 @@ def oracle(ctx, cfg, runs, obs, pre0, seen):
             bad = outputs_valid(cfg, r, s)
             if bad:
                 fail("completed run left invalid output: %s" % bad[:3], dict(tags, clause="complete_valid"))
+        if oc == 101:
+            prev_sub = r.get("sub", 0)
         prev_complete = (oc == 101) or (prev_complete and not changed)
         prev = list(s.values())
 
@@ -811,7 +843,7 @@ def mkcall(ct=0, post=0, dele=0, comp=0, ow=0, crash=-1, corrupt=-1, cpos=0):
 
 def enc_objseq(cfg, opts, calls):
     kind, fixture, n, w, compressed = CONFIGS[cfg]
-    out = [10 + kind, n, w, int(compressed)] + [int(x) for x in opts]
+    out = [10 + kind, n, w, int(compressed)] + [int(x) for x in (list(opts) + [0])[:4]]
     for c in calls:
         out += [c["ct"], c["post"], c["del"], c["comp"], c["ow"], c["crash"], c["corrupt"]]
     return out
@@ -854,7 +886,11 @@ def oracle_object(ctx, cfg, opts, calls, obs, pre0, seen):
         if c["ct"] == 1 and o["check_failed"] and o["checked"]:
             fail("check_completed is true although the last check_NP24 failed", dict(tags, clause="checked_stale"))
         if c["ct"] == 0 and o["outcome"] == 101 and kind != 2:
-            eff = {"comp": int(bool(cur_opts[2])), "t": 1 if compressed else 0}
+            eff = {"comp": int(bool(cur_opts[2])), "t": 1 if compressed else 0,
+                   "sub": opts[3] if len(opts) > 3 else 0}
+            if kind == 0 and eff["sub"] not in (0, (1 << n) - 1) and cur_opts[0]:
+                fail("verification accepted a split that does not cover every channel of the original",
+                     dict(tags, clause="subset_verify"))
             bad = outputs_valid(cfg, eff, s)
             if kind == 1 and eff["comp"] and not compressed:
                 bad = [b for b in bad if b != "original not compressed in place"] + \
@@ -872,11 +908,11 @@ def oracle_object(ctx, cfg, opts, calls, obs, pre0, seen):
 # ----------------------------------------------------------------------------
 # exploration (worker processes)
 # ----------------------------------------------------------------------------
-def mkrun(t=0, post=1, dele=0, comp=1, ow=0, crash=-1, corrupt=-1, cpos=0):
+def mkrun(t=0, post=1, dele=0, comp=1, ow=0, crash=-1, corrupt=-1, cpos=0, sub=0):
     """cpos: where the adversary damages the shank file (0 first, 1 middle, 2 last frame); the model
     does not depend on it"""
     return {"t": t, "post": post, "del": dele, "comp": comp, "ow": ow, "crash": crash, "corrupt": corrupt,
-            "cpos": cpos}
+            "cpos": cpos, "sub": sub}
 
 
 def auto_target(cfg, state):
@@ -899,11 +935,14 @@ def worker(task):
     kind, fixture, n, w, compressed = CONFIGS[cfg]
     exp = {int(k): v for k, v in json.loads((base / cfg / "exp.json").read_text()).items()}
     rng = random.Random(task["seed"])
+    LAYOUT["extra"] = task.get("extra", "")
     work = Path(common.tmpdir(prefix="C04_w_"))
     if "object" in task:
         try:
             res = []
             for j, (opts, calls) in enumerate(task["object"]):
+                for c in calls:
+                    c["extra"] = LAYOUT["extra"]
                 d = work / ("o%d" % j)
                 shutil.copytree(base / cfg / "init", d)
                 try:
@@ -927,6 +966,7 @@ def worker(task):
         return d
 
     def do(src, r):
+        r["extra"] = LAYOUT["extra"]
         d = fresh(src)
         dg = digest(d) if (r["crash"] < 0) else None
         o = run_real(d, cfg, exp, r)
@@ -1014,10 +1054,10 @@ def make_tasks(ctx, base):
     th = ctx.thorough()
     tasks = []
 
-    def add(cfg, prefix, templates, crash, follow=1):
+    def add(cfg, prefix, templates, crash, follow=1, extra=""):
         for tpl in templates:       # one template per task: better load balance
             tasks.append({"base": str(base), "cfg": cfg, "prefix": prefix, "templates": [tpl],
-                          "crash": crash, "follow": follow, "seed": rng.randrange(1 << 30)})
+                          "crash": crash, "follow": follow, "seed": rng.randrange(1 << 30), "extra": extra})
 
     T = all_templates()
     TO = [t for t in T if t["ow"]]
@@ -1058,6 +1098,18 @@ def make_tasks(ctx, base):
     for prefix in ([mkrun(t=-1, comp=1, crash=5)], [mkrun(t=-1, comp=1, crash=7)], [mkrun(t=-1, comp=0)]):
         add("np21w2c", prefix, [mkrun(t=-1, comp=1, ow=1), mkrun(t=-1, comp=1, ow=0)], "all" if th else 3, fo)
     add("np1w1", [], T if th else rng.sample(T, 4), "none", 1)
+    # init_params(nshank=[subset]) / extra=: only some shanks are written; with post_check the comparison
+    # with the full-width original must refuse, whatever delete_original / compress say
+    for m in ((0b0011, 0b0100, 0b1110, 0b1111) if th else (0b0011, 0b1000, 0b1111)):
+        for (po, de, co) in ((1, 1, 0), (1, 1, 1), (0, 1, 1), (1, 0, 0)):
+            add("np24s4w2", [], [mkrun(t=-1, post=po, dele=de, comp=co, sub=m)], "all" if th else 3, fo)
+    add("np24s4w2", [mkrun(t=-1, post=0, dele=0, comp=0, sub=0b0101)],
+        [mkrun(t=-1, post=1, dele=1, comp=0, ow=1, sub=0b1010), mkrun(t=-1, post=1, dele=1, comp=1, ow=1, sub=0),
+         mkrun(t=-1, post=1, dele=1, comp=0, ow=0, sub=0b1010)], 2, 1)
+    add("np24s4w2", [], [mkrun(t=-1, post=1, dele=1, comp=0, sub=0b0110), mkrun(t=-1, post=1, dele=1, comp=1)],
+        2, 1, extra="_x")
+    add("np24s1w3", [], [mkrun(t=-1, post=1, dele=1, comp=1, sub=0b1), mkrun(t=-1, post=1, dele=0, comp=0)],
+        "all" if th else 4, fo, extra="_run2")
     tasks += object_tasks(ctx, base)
     return tasks
 
@@ -1120,10 +1172,16 @@ def object_tasks(ctx, base):
             s2.append((o, [P(crash=c), P(ow=1), P()]))
     s2 += [((0, 0, 0), [P(), O(0, 0, 1), P(ow=1)]), ((0, 0, 0), [P(), P(ow=1), O(1, 0, 1), P(ow=1, crash=6), P(ow=1)])]
     seqs["np21w2c"] += [((0, 0, 1), [P(), P(ow=1)]), ((0, 0, 1), [P(crash=5), P(ow=1), P()])]
+    # objects restricted to some shanks
+    s4 += [((1, 1, 0, 0b0011), [P(), D()]), ((1, 1, 1, 0b1100), [P(), K(), D()]),
+           ((0, 0, 0, 0b0110), [P(), K(), O(1, 1, 0), D()]), ((0, 1, 0, 0b1111), [P(), K(), D()]),
+           ((1, 1, 0, 0b0001), [P(crash=rng.randrange(20)), P(ow=1), D()])]
     tasks = []
     for cfg, lst in seqs.items():
         for i in range(0, len(lst), 8):
             tasks.append({"base": str(base), "cfg": cfg, "object": lst[i:i + 8], "seed": 0})
+    tasks.append({"base": str(base), "cfg": "np24s4w2", "seed": 0, "extra": "_x",
+                  "object": [((1, 1, 0, 0b0011), [P(), D()]), ((1, 1, 0), [P(), P(ow=1)])]})
     return tasks
 
 
@@ -1190,6 +1248,8 @@ def run(ctx):
         dist["corrupt"] += r["corrupt"] >= 0
         dist["overwrite"] += r["ow"]
         dist["split_input"] += r["t"] >= 2
+        dist["nshank_subset"] = dist.get("nshank_subset", 0) + (r.get("sub", 0) != 0)
+        dist["extra_suffix"] = dist.get("extra_suffix", 0) + bool(r.get("extra"))
         dist["orig_deleted"] += any(e[0] == "unlink_orig" and e[4] for e in o["aux"])
         dist["orig_compressed_in_place"] += any(e[0] == "unlink_orig" and not e[4] for e in o["aux"])
         states.add((cfg, tuple(o["state"])))
@@ -1250,12 +1310,13 @@ def replay(ctx, data):
     if inp.get("object"):
         return replay_object(ctx, inp)
     cfg, runs = inp["cfg"], inp["runs"]
+    LAYOUT["extra"] = runs[0].get("extra", "") if runs else ""
     base = Path(common.tmpdir(prefix="C04_replay_"))
     try:
         exp = build_reference(base, cfg)
         (base / cfg / "exp.json").write_text(json.dumps(exp))
         cfg_, out = worker({"base": str(base), "cfg": cfg, "prefix": runs[:-1], "templates": [runs[-1]],
-                            "crash": "none", "follow": 0, "seed": 0})
+                            "crash": "none", "follow": 0, "seed": 0, "extra": LAYOUT["extra"]})
         init = observe((base / cfg / "init").resolve(), CONFIGS[cfg][2], exp)["state"]
     finally:
         shutil.rmtree(base, ignore_errors=True)
@@ -1278,6 +1339,7 @@ def replay(ctx, data):
 
 def replay_object(ctx, inp):
     cfg, opts, calls = inp["cfg"], inp["opts"], inp["calls"]
+    LAYOUT["extra"] = calls[0].get("extra", "") if calls else ""
     base = Path(common.tmpdir(prefix="C04_replay_"))
     try:
         exp = build_reference(base, cfg)
